@@ -72,13 +72,22 @@ TargetsOf(i) ==
     [] i = 8 -> {<<"o2">>}
     [] i = 9 -> {<<"o2">>}
 
-(* manifest edits: new command line, toggled implicit input, toggled restat *)
+(* manifest edits: new command line, toggled implicit input, toggled restat, moved input *)
 BumpVer(m, c)   == [m EXCEPT !.cmds[c].ver = @ + 1]
 ToggleImp(m, c) == [m EXCEPT !.cmds[c].imp = IF "h" \in Range(@) THEN SelectSeq(@, LAMBDA p : p # "h") ELSE Append(@, "h")]
 ToggleRestat(m, c) == [m EXCEPT !.cmds[c].restat = ~@]
 ToggleOO(m, c)  == IF "c3" \in DOMAIN m.cmds /\ m.cmds["c3"].outs = <<"o3">> /\ m.cmds["c3"].ins = <<"s2">>
                    THEN [m EXCEPT !.cmds[c].oo = IF @ = <<>> THEN <<"o3">> ELSE <<>>] ELSE m
-EditsOf(m) == {BumpVer(m, c) : c \in DOMAIN m.cmds \cap {"c1", "c2"}}
+(* an input moves between the sections of its build statement; the command *)
+(* line only changes when the explicit section is involved                 *)
+Without(s, p) == SelectSeq(s, LAMBDA q : q # p)
+Movable(m) == {c \in DOMAIN m.cmds \cap {"c1", "c2"} : ~m.cmds[c].gen /\ ~m.cmds[c].phony}
+MovesOf(m) ==
+  UNION {  {[m EXCEPT !.cmds[c].imp = Without(@, p), !.cmds[c].oo = Append(@, p)] : p \in Range(m.cmds[c].imp)}
+      \cup {[m EXCEPT !.cmds[c].oo = Without(@, p), !.cmds[c].imp = Append(@, p)] : p \in Range(m.cmds[c].oo)}
+      \cup {[m EXCEPT !.cmds[c].imp = Without(@, p), !.cmds[c].ins = Append(@, p)] : p \in Range(m.cmds[c].imp)}
+      : c \in Movable(m)}
+EditsOf(m) == {BumpVer(m, c) : c \in DOMAIN m.cmds \cap {"c1", "c2"}} \cup MovesOf(m)
               \cup (IF m.cmds["c1"].gen THEN {} ELSE {ToggleImp(m, "c1")})      \* a generator command's hash is never compared
               \cup {ToggleRestat(m, "c1")} \cup {ToggleOO(m, "c2")}
 
